@@ -23,6 +23,7 @@ def dispatch (cmd : String) (args : List String) : String :=
     | "C08" :: rest => orcC08 rest
     | "C06" :: rest => orcC06 rest
     | "C10" :: rest => orcC10 rest
+    | "C13" :: rest => orcC13 rest
     | _ => "BADORC")
   | _ => "BADCMD"
 
